@@ -26,7 +26,7 @@ struct Exec {
     Ctx ctx;
     std::deque<Inst> insts;               // stable addresses
     Inst *cur[prog::MAX_MODS] = {nullptr, nullptr, nullptr, nullptr};
-    int cb_count[prog::MAX_MODS][prog::CB_NKINDS] = {{0}};
+    int cb_count[prog::MAX_MODS + 1][prog::CB_NKINDS] = {{0}};   // last row: the driver module of blocking-loop mode
     std::vector<Frame> cbstack;
     std::map<long, Payload> payloads;
     std::map<void *, long> payload_by_ptr;
@@ -48,6 +48,11 @@ struct Exec {
     std::map<std::string, bool> nt;
     std::string prop;                     // property being checked (selects profile-specific behaviour only)
     bool ctx_teardown = false, torn_in_teardown = false;
+    // blocking-loop mode: a driver module executes the remaining top-level ops, one per handler invocation
+    Inst *driver = nullptr; int drv_fd = -1; size_t loop_next_op = 0; bool in_loop = false, loop_quit_pending = false, loop_started_pending = false; int loop_final_code = 0;
+    void run_blocking_loop(const Op &op, size_t next_op);
+    void driver_step();
+    bool nt_loop_mode = false;
     int handlers_in_dispatch = 0; bool errno_poisoned_in_dispatch = false;
     bool unobserved_mode = false; int ctx_gen = 0; long excluded_kf = 0; double dispatch_began_at = 0;
     std::vector<long> pending_free_checks; void check_pending_frees();
